@@ -38,7 +38,7 @@ impl ProgProperty for C02 {
         "C02"
     }
     fn rule(&self) -> String {
-        "generated programs (structured 45%, roaming 20%, raw 15%, wide 12%, deep 5%, bigconst 3%) x input x width, run by BcInterpreter::execute at levels 0..3, every case in the release build (tail-called dispatch) and in the debug-assertions build (trampolined dispatch), compared event-for-event with the reference. Non-trivial: the canonical run repeats a loop body and produces an event, or the bytecode the interpreter holds (hook) contains a Scan, a MemZero operand or a spilled temporary (index >= 2); distinct = distinct (program, input, width)".into()
+        "generated programs (structured 45%, roaming 20%, raw 15%, wide 12%, deep 5%, bigconst 3%) x input x width, run by BcInterpreter::execute at levels 0..3, every case in the release build (tail-called dispatch) and in the debug-assertions build (trampolined dispatch), compared event-for-event with the reference. Non-trivial: the canonical run repeats a loop body and produces an event, or the bytecode the interpreter holds (hook) contains a Scan, a MemZero operand or a spilled temporary (index >= 2); distinct = distinct (program, input, width) A third of the halting programs at 16/32 bit and two thirds at 64 bit carry the upper-bits probe (family `...+probe`): an appended epilogue takes the canonical final value of every small-magnitude cell out again, counts the cells in which anything is left and prints the count (0 canonically), which makes the bits above the low byte observable.".into()
     }
     fn assumptions(&self) -> Vec<String> {
         vec!["build profiles: harness profile `release` (cargo defaults) and `dbgassert` (release + debug-assertions + overflow-checks)".into()]
